@@ -84,6 +84,12 @@ class RealBackend:
     def T(self, **kw):
         import pg
         return pg.Transition(**kw)
+    def Tpos(self, *args):
+        import pg
+        return pg.Transition(*args)
+    def enum(self, name):
+        import pg
+        return getattr(pg.TransitionType, name)
     def E(self, *a, **kw):
         import pg
         return pg.Event(*a, **kw)
